@@ -16,3 +16,26 @@ func VerifAtoi(i int64, pad int) string {
 
 // VerifHostport exposes hostport.
 func VerifHostport(s string) (string, string) { return hostport(s) }
+
+// VerifLex exposes lex on the runes of s: item type (0 text, 1 field, 2 header) and length in runes.
+func VerifLex(s []rune) (typ int, n int) {
+	t, n := lex(s)
+	return int(t), n
+}
+
+// VerifParse runs parse with the package's own field table and reports the pattern length or the error.
+func VerifParse(format string) (n int, err error) {
+	p, err := parse(format, fields)
+	return len(p), err
+}
+
+// VerifWrite renders e with the parsed format through pattern.write into a fresh buffer.
+func VerifWrite(format string, e *Event) (string, error) {
+	p, err := parse(format, fields)
+	if err != nil {
+		return "", err
+	}
+	var b bytes.Buffer
+	p.write(&b, e)
+	return b.String(), nil
+}
